@@ -42,10 +42,14 @@ type regStep struct {
 }
 
 type regScenario struct {
-	Name  string         `json:"name"`
-	Gates []string       `json:"gates,omitempty"`
-	Steps []regStep      `json:"steps"`
-	Meta  map[string]any `json:"meta,omitempty"`
+	Name  string   `json:"name"`
+	Gates []string `json:"gates,omitempty"`
+	// Rendezvous: tunnels being admitted are held right before they look up (or create) the registry
+	// of their key until this many have arrived, and then go on together (tunnels registering at the
+	// same moment, e.g. with a key that is used for the first time)
+	Rendezvous int            `json:"rendezvous,omitempty"`
+	Steps      []regStep      `json:"steps"`
+	Meta       map[string]any `json:"meta,omitempty"`
 }
 
 type regTunnel struct {
@@ -58,16 +62,19 @@ type regTunnel struct {
 }
 
 type regSession struct {
-	log     *tr.Log
-	mu      sync.Mutex
-	h       *grpctunnel.TunnelServiceHandler
-	tun     map[int]*regTunnel
-	byChan  map[int64]int
-	gates   map[string]bool
-	parked  map[string]chan struct{}
-	pending map[int]context.CancelFunc
-	quit    chan struct{}
-	hlive   map[int]bool
+	log        *tr.Log
+	mu         sync.Mutex
+	h          *grpctunnel.TunnelServiceHandler
+	tun        map[int]*regTunnel
+	byChan     map[int64]int
+	gates      map[string]bool
+	rv         chan struct{}
+	rvN        int
+	rendezvous int
+	parked     map[string]chan struct{}
+	pending    map[int]context.CancelFunc
+	quit       chan struct{}
+	hlive      map[int]bool
 }
 
 type regStub struct {
@@ -157,6 +164,24 @@ func (s *regSession) yield(point string, id int64) {
 	if len(point) > 4 && (point[:4] == "reg." || point[:4] == "rts.") {
 		s.log.Emit("hook", tr.E{"point": point, "t": t, "sid": id, "a": 0, "b": 0})
 	}
+	if s.rendezvous > 1 && point == "reg.add.global" {
+		// hold tunnels right before they look up (or create) their per-key registry until enough
+		// have arrived, then let them go on together
+		s.mu.Lock()
+		s.rvN++
+		if s.rvN%s.rendezvous == 0 {
+			close(s.rv)
+			s.rv = make(chan struct{})
+			s.mu.Unlock()
+		} else {
+			w := s.rv
+			s.mu.Unlock()
+			select {
+			case <-w:
+			case <-s.quit:
+			}
+		}
+	}
 }
 
 func (s *regSession) via(v string) grpctunnel.ReverseClientConnInterface {
@@ -212,7 +237,8 @@ func (s *regSession) quiesce(final bool) {
 func runRegistry(scn regScenario) *tr.Log {
 	grpctunnel.VerifForget()
 	s := &regSession{log: tr.New(), tun: map[int]*regTunnel{}, byChan: map[int64]int{}, gates: map[string]bool{},
-		parked: map[string]chan struct{}{}, pending: map[int]context.CancelFunc{}, quit: make(chan struct{}), hlive: map[int]bool{}}
+		parked: map[string]chan struct{}{}, pending: map[int]context.CancelFunc{}, quit: make(chan struct{}), hlive: map[int]bool{},
+		rv: make(chan struct{}), rendezvous: scn.Rendezvous}
 	for _, g := range scn.Gates {
 		s.gates[g] = true
 	}
@@ -247,6 +273,8 @@ func runRegistry(scn regScenario) *tr.Log {
 		},
 		OnReverseTunnelClose: func(ch grpctunnel.TunnelChannel) {
 			s.log.Emit("reg", tr.E{"what": "cb.close", "t": s.tunOfChan(ch)})
+			// a (slow) close callback is a yield point too: the handler's own clean-up runs after it
+			s.yield("cb.close", grpctunnel.VerifChannelID(ch))
 		},
 	})
 	meta := map[string]any{"_": 0}
